@@ -363,10 +363,16 @@ impl Drop for SendStream {
     fn drop(&mut self) {
         let mut conn = self.conn.state.lock("SendStream::drop");
 
+        if self.is_0rtt && conn.check_0rtt().is_err() {
+            // The stream ID may since have been reused: anything registered for it now belongs to
+            // the new stream
+            return;
+        }
+
         // clean up any previously registered wakers
         conn.blocked_writers.remove(&self.stream);
 
-        if conn.error.is_some() || (self.is_0rtt && conn.check_0rtt().is_err()) {
+        if conn.error.is_some() {
             return;
         }
         match conn.inner.send_stream(self.stream).finish() {
